@@ -437,9 +437,8 @@ def decode4 (reset : Bool) (c : Call) : W Bytes := do
 
 /-! ### 16 bits per pixel (decoder16b.py) -/
 
-/-- the two "jump" statements before a run is painted -/
-def jump16 (w width : Nat) (run : Nat) (x : Nat) (y : Int) : Nat × Int :=
-  let x := if x + run > w ∧ x < w then w else x
+/-- "Jump to next row when necessary", the statement before a run or literal is painted (`width` = bytes per scan line) -/
+def jump16 (width : Nat) (run : Nat) (x : Nat) (y : Int) : Nat × Int :=
   if x + run > width then (0, y - 1) else (x, y)
 
 /-- RLE branch: `for _ in range(run_length): data[y*width + x] = v; x += 1` (no wrap inside the loop) -/
@@ -477,8 +476,8 @@ theorem paintLit16_len (width n : Nat) (rest data : Bytes) (x : Nat) (y : Int) (
         · have := ih _ _ _ _ h; simp; omega
         · have := ih _ _ _ _ h; simp; omega
 
-/-- the PackBits loop of Decoder16b.decode_compressed_data (`w` = pixels per row, `width` = 2·w) -/
-def loop16 (w width : Nat) (rest : Bytes) (data : Bytes) (x : Nat) (y : Int) : R Bytes :=
+/-- the PackBits loop of Decoder16b.decode_compressed_data (`width` = 2·(pixels per scan line)) -/
+def loop16 (width : Nat) (rest : Bytes) (data : Bytes) (x : Nat) (y : Int) : R Bytes :=
   if y < 0 then .ok data else
   match rest with
   | [] => .ok data
@@ -488,16 +487,16 @@ def loop16 (w width : Nat) (rest : Bytes) (data : Bytes) (x : Nat) (y : Int) : R
       | [] => .error .index                       -- `fdata[idx]` past the end
       | v :: r2 =>
         let run := 257 - val.toNat
-        let (x, y) := jump16 w width run x y
+        let (x, y) := jump16 width run x y
         match paintRun16 width y v run data x with
         | .error e => .error e
-        | .ok (data, x) => loop16 w width r2 data x y
+        | .ok (data, x) => loop16 width r2 data x y
     else
       let run := val.toNat + 1
-      let (x, y) := jump16 w width run x y
+      let (x, y) := jump16 width run x y
       match hp : paintLit16 width run r1 data x y with
       | .error e => .error e
-      | .ok (data, x, y, r2) => loop16 w width r2 data x y
+      | .ok (data, x, y, r2) => loop16 width r2 data x y
 termination_by rest.length
 decreasing_by
   all_goals simp_wf
@@ -511,17 +510,23 @@ def interleave2 : Bytes → Bytes → Bytes
   | a :: as, b :: bs => a :: b :: interleave2 as bs
   | _, _ => []
 
-def deint16 (data : Bytes) (w h : Nat) : Bytes :=
-  let stride := 2 * w + (2 * w) % 4
-  (List.range h).flatMap fun y =>
-    interleave2 (slice data (y * (2 * w) + w) (y * (2 * w) + 2 * w)) (slice data (y * (2 * w)) (y * (2 * w) + w))
-      ++ zeros (stride - 2 * w)
+def deint16 (data : Bytes) (w h cw ch padW : Nat) : Bytes :=
+  let stride := 2 * cw + (2 * cw) % 4
+  if w = 0 then zeros (stride * ch) else
+  ((List.range h).flatMap fun y =>
+    zeros (2 * padW) ++ interleave2 (slice data (y * (2 * w) + w) (y * (2 * w) + 2 * w)) (slice data (y * (2 * w)) (y * (2 * w) + w))
+      ++ zeros (stride - 2 * padW - 2 * w))
+  ++ zeros (stride * (ch - h))
 
-/-- Decoder16b.decode_compressed_data (padding arguments are ignored by the code) -/
-def compressed16 (fdata : Bytes) (W H : Nat) : R Bytes :=
-  match loop16 W (2 * W) fdata (zeros (2 * W * H)) 0 ((H : Int) - 1) with
+/-- Decoder16b.decode_compressed_data: the image's `max(W - padW, 0)` by `max(H - padH, 0)` scan lines are unpacked into a
+    planar buffer of their own and then laid out on the `W` by `H` canvas at column `padW` (rows bottom-up, so the `padH`
+    empty rows are the last ones) -/
+def compressed16 (fdata : Bytes) (W H padW padH : Nat) : R Bytes :=
+  let w := W - padW
+  let h := H - padH
+  match loop16 (2 * w) fdata (zeros (2 * w * h)) 0 ((h : Int) - 1) with
   | .error e => .error e
-  | .ok data => .ok (deint16 data W H)
+  | .ok data => .ok (deint16 data w h W H padW)
 
 /-- Decoder16b.decode -/
 def decode16 (reset : Bool) (c : Call) : W Bytes := do
@@ -532,7 +537,7 @@ def decode16 (reset : Bool) (c : Call) : W Bytes := do
   let wSize : Int := ((W : Int) - c.padW) * 2
   let bmp ← liftR (if (c.fdata.length : Int) = wSize * ((H : Int) - padH)
       then (.error .notImpl : R Bytes)
-      else compressed16 c.fdata W H)
+      else compressed16 c.fdata W H c.padW padH)
   write bmp
   getBmpImage
 
@@ -604,18 +609,24 @@ def interleave3 : Bytes → Bytes → Bytes → Bytes
   | _, _, _ => []
 
 /-- "Order RGB bytes and discard Alpha channel": plane 3, plane 2, plane 1 of each source row -/
-def deint24 (data : Bytes) (w h : Nat) : Bytes :=
-  let stride := 3 * w + (4 - (3 * w) % 4) % 4
-  (List.range h).flatMap fun y =>
+def deint24 (data : Bytes) (w h cw ch padW : Nat) : Bytes :=
+  let stride := 3 * cw + (4 - (3 * cw) % 4) % 4
+  if w = 0 then zeros (stride * ch) else
+  ((List.range h).flatMap fun y =>
+    zeros (3 * padW) ++
     interleave3 (slice data (y * (4 * w) + 3 * w) (y * (4 * w) + 4 * w))
                 (slice data (y * (4 * w) + 2 * w) (y * (4 * w) + 3 * w))
                 (slice data (y * (4 * w) + w) (y * (4 * w) + 2 * w))
-      ++ zeros (stride - 3 * w)
+      ++ zeros (stride - 3 * padW - 3 * w))
+  ++ zeros (stride * (ch - h))
 
-def compressed24 (fdata : Bytes) (W H : Nat) : R Bytes :=
-  match loop24 (4 * W) fdata (zeros (4 * W * H)) 0 ((H : Int) - 1) with
+/-- Decoder24b.decode_compressed_data (offsets as in the 16-bit decoder) -/
+def compressed24 (fdata : Bytes) (W H padW padH : Nat) : R Bytes :=
+  let w := W - padW
+  let h := H - padH
+  match loop24 (4 * w) fdata (zeros (4 * w * h)) 0 ((h : Int) - 1) with
   | .error e => .error e
-  | .ok data => .ok (deint24 data W H)
+  | .ok data => .ok (deint24 data w h W H padW)
 
 /-- Decoder24b.decode (used for depth 24 and 32) -/
 def decode24 (reset : Bool) (c : Call) : W Bytes := do
@@ -623,10 +634,10 @@ def decode24 (reset : Bool) (c : Call) : W Bytes := do
   let W := c.width
   writeBmpHeader reset ((W * H * 3 + 40 + 14 : Nat) : Int) ((40 + 14 : Nat) : Int)
   writeInfoHeader40 W H 24 0
-  let wSize : Int := ((W : Int) - c.padW) * 2
+  let wSize : Int := ((W : Int) - c.padW) * 4
   let bmp ← liftR (if (c.fdata.length : Int) = wSize * ((H : Int) - padH)
       then (.error .notImpl : R Bytes)
-      else compressed24 c.fdata W H)
+      else compressed24 c.fdata W H c.padW padH)
   write bmp
   getBmpImage
 
